@@ -89,6 +89,36 @@ def prescanAux : Nat → Bytes → Nat → Bool → Nat → Nat → Nat × Nat
 
 def prescan (w : Bytes) : Nat × Nat := prescanAux w.length w 0 true 0 0
 
+/-- the records both loops step through in a log, with their positions -/
+def walkAux : Nat → Bytes → Nat → List (Nat × Rec)
+  | 0, _, _ => []
+  | fuel + 1, rest, pos =>
+    if rest.isEmpty then []
+    else match parse rest with
+      | none => []
+      | some (r, adv) => (pos, r) :: walkAux fuel (rest.drop adv) (pos + adv)
+
+def walk (w : Bytes) : List (Nat × Rec) := walkAux w.length w 0
+
+/-- executable form of `C05.SegClosed`: no separator announces a segment that reaches beyond a later savepoint record -/
+def segClosedB (w : Bytes) : Bool :=
+  (walk w).all fun pr =>
+    match pr.2 with
+    | .sep _ l => (walk w).all fun sr => !(sr.2 == Rec.savepoint) || !(decide (pr.1 < sr.1)) || decide (pr.1 + 12 + l ≤ sr.1 + 12)
+    | _ => true
+
+/-- the walk reaches the end of the log exactly (no undecodable tail) -/
+def walkFull (w : Bytes) : Bool :=
+  let rec go : Nat → Bytes → Bool
+    | 0, rest => rest.isEmpty
+    | fuel + 1, rest =>
+      if rest.isEmpty then true
+      else match parse rest with
+        | none => false
+        | some (_, adv) => adv ≤ rest.length && go fuel (rest.drop adv)
+  go w.length w
+
+
 /-! ## main file -/
 
 def roundUp (n a : Nat) : Nat := (n + a - 1) / a * a
@@ -100,7 +130,10 @@ def memWrite (m : Bytes) (off : Nat) (data : Bytes) : Option Bytes :=
   else none
 
 /-- `memset(mm + off, val, len)` -/
-def memSet (m : Bytes) (off len val : Nat) : Option Bytes := memWrite m off (List.replicate len (val % 256))
+def memSet (m : Bytes) (off len val : Nat) : Option Bytes :=
+  if len = 0 then some m
+  else if off + len ≤ m.length then memWrite m off (List.replicate len (val % 256))
+  else none
 
 /-- `memmove(mm + noff, mm + off, len)` -/
 def memCopy (m : Bytes) (off len noff : Nat) : Option Bytes :=
